@@ -63,6 +63,14 @@ Theorem C16_compat_ignored_dropped : forall pre post, Forall fixed_arg pre -> Fo
 Proof. exact compat_ignored_dropped. Qed.
 Print Assumptions C16_compat_ignored_dropped.
 
+(* whole argument vectors: for every command of the generated list (the four converters among them), called by its own name or as
+   `bigtools <command>`, every argument goes through compat_arg and the blanked ones are dropped *)
+Theorem C16_compat_args_tools : forall tool args, In tool COMPAT_COMMANDS ->
+  compat_args (tool :: args) = compat_args_vec (tool :: args) /\
+  compat_args (COMPAT_MULTICALL :: tool :: args) = compat_args_vec (COMPAT_MULTICALL :: tool :: args).
+Proof. exact compat_args_tools. Qed.
+Print Assumptions C16_compat_args_tools.
+
 (* list level, bigWig: reading only the blocks the index reports and clipping = clipping the whole accepted value list, for every block size *)
 Theorem C16_bw_query_is_clip_filter : forall ips len vals s e, (0 < ips)%nat -> check_chrom len vals = Ok tt -> bw_query ips vals s e = clip_filter s e vals.
 Proof. exact bw_query_is_clip_filter. Qed.
